@@ -1888,7 +1888,7 @@ class NamespaceOps:
         if extra:
             self.V("C17", "list_extra", cmd=line, extra=extra, expected=sorted(exp))
         if not op.get("lsub"):
-            for n in set(exp) & set(gi):
+            for n in sorted(set(exp) & set(gi)):
                 want = exp[n]
                 have = {a for a in gi[n] if a in ("\\noselect", "\\haschildren", "\\hasnochildren")}
                 if want != have:
